@@ -184,7 +184,7 @@ def build_h1():
 
 def specs(tier):
     import c04
-    out = [Spec("h1_commit_nonce", build_h1(), cfg=cfg(), unwind=4, timeout=900,
+    out = [Spec("h1_commit_nonce", build_h1(), cfg=cfg(), unwind=4, timeout=2700,
                 desc="real OrderedCommitter::commit for every tx nonce / committed sender account / speculative post-state / reward / fault",
                 bounds={"addresses": A, "value_bits": 8})]
     for s in c04.specs(tier):
